@@ -27,13 +27,14 @@ const (
 	tRecover    = 9
 	tRecoverDwn = 10
 	tReturn     = 11
+	tCallback   = 12 // h.Call(func() { ... }): a native function that calls back the function literal
 )
 
 type Ins struct {
 	Tok   int
 	N     int    // value (hook number, error number, panic value)
 	K     int    // kind of the native for tDeferNat (1..4)
-	Body  []*Ins // tCall, tDeferFn
+	Body  []*Ins // tCall, tDeferFn, tCallback
 	Named bool   // program flavour: a top level function instead of a function literal
 	Line  int    // set by the printer; 0 = no debug information in the encoding
 }
@@ -45,6 +46,7 @@ type genOpts struct {
 	natPanic   bool // native functions that panic (deferred ones are a known finding)
 	deferNatPn bool // deferred native that panics
 	stopFatal  bool
+	callbacks  int // percentage of the call instructions that go through a native function (0: none)
 }
 
 func genBody(r *rand.Rand, o *genOpts, depth int, deferred bool) []*Ins {
@@ -58,6 +60,10 @@ func genBody(r *rand.Rand, o *genOpts, depth int, deferred bool) []*Ins {
 		case x < 24:
 			out = append(out, &Ins{Tok: tBody, N: val})
 		case x < 38 && depth < o.maxDepth:
+			if o.callbacks > 0 && r.Intn(100) < o.callbacks {
+				out = append(out, &Ins{Tok: tCallback, Body: genBody(r, o, depth+1, false)})
+				break
+			}
 			out = append(out, &Ins{Tok: tCall, Body: genBody(r, o, depth+1, false), Named: r.Intn(3) == 0})
 		case x < 56 && depth < o.maxDepth:
 			out = append(out, &Ins{Tok: tDeferFn, Body: genBody(r, o, depth+1, true), Named: r.Intn(4) == 0})
@@ -96,7 +102,69 @@ func genBody(r *rand.Rand, o *genOpts, depth int, deferred bool) []*Ins {
 
 func genTree(r *rand.Rand, withFindings bool) []*Ins {
 	o := &genOpts{maxDepth: 1 + r.Intn(4), maxLen: 2 + r.Intn(5), budget: 6 + r.Intn(30), natPanic: true, deferNatPn: withFindings, stopFatal: true}
+	// a third of the trees call some of their functions through native code
+	if r.Intn(3) == 0 {
+		o.callbacks = 30 + r.Intn(70)
+	}
 	return genBody(r, o, 0, false)
+}
+
+// genCallbackTree: a tree whose calls mostly go through native code, with
+// Stop, Fatal, panics and recoveries inside the callbacks. A panic that leaves
+// a callback is a known finding (callback-panic-is-fatal): unless
+// withFindings, every callback recovers its panics itself.
+func genCallbackTree(r *rand.Rand, withFindings bool) []*Ins {
+	var body func(depth int, inCb bool) []*Ins
+	val := func() int { return 1 + r.Intn(9) }
+	body = func(depth int, inCb bool) []*Ins {
+		var out []*Ins
+		n := 1 + r.Intn(4)
+		guarded := false
+		if inCb && !withFindings {
+			// the callback recovers whatever panics inside it
+			out = append(out, &Ins{Tok: tDeferFn, Body: []*Ins{{Tok: tRecover}}})
+			guarded = true
+		}
+		for i := 0; i < n; i++ {
+			x := r.Intn(100)
+			switch {
+			case x < 20:
+				out = append(out, &Ins{Tok: tBody, N: val()})
+			case x < 45 && depth < 3:
+				out = append(out, &Ins{Tok: tCallback, Body: body(depth+1, true)})
+			case x < 52 && depth < 3:
+				out = append(out, &Ins{Tok: tCall, Body: body(depth+1, inCb && !guarded)})
+			case x < 62:
+				out = append(out, &Ins{Tok: tDeferNat, K: 1, N: val()})
+			case x < 70 && depth < 3:
+				out = append(out, &Ins{Tok: tDeferFn, Body: []*Ins{{Tok: tBody, N: val()}, {Tok: tRecover}}})
+			case x < 80:
+				if inCb || depth == 0 {
+					out = append(out, &Ins{Tok: tStop + r.Intn(2), N: val()})
+				} else {
+					out = append(out, &Ins{Tok: tBody, N: val()})
+				}
+			case x < 90:
+				if !inCb || guarded || withFindings {
+					out = append(out, &Ins{Tok: tPanic, N: val()})
+				}
+			case x < 94:
+				if !inCb || guarded || withFindings {
+					out = append(out, &Ins{Tok: tNatPanic, N: val()})
+				}
+			default:
+				out = append(out, &Ins{Tok: tRecover})
+			}
+		}
+		if inCb && withFindings && r.Intn(3) == 0 {
+			// a chain with a recovered record leaves the callback (known finding
+			// recovered-panic-stays-in-chain inside the VM of the callback)
+			out = append(out, &Ins{Tok: tDeferFn, Body: []*Ins{{Tok: tPanic, N: val()}}},
+				&Ins{Tok: tDeferFn, Body: []*Ins{{Tok: tRecover}}}, &Ins{Tok: tPanic, N: val()})
+		}
+		return out
+	}
+	return body(0, false)
 }
 
 // enumTrees calls f on every body of length <= n over a small alphabet of
@@ -111,6 +179,13 @@ func enumTrees(n int, f func(t []*Ins)) {
 		func() *Ins { return &Ins{Tok: tCall, Body: []*Ins{{Tok: tDeferFn, Body: []*Ins{{Tok: tRecover}}}, {Tok: tPanic, N: 6}}} },
 		func() *Ins { return &Ins{Tok: tDeferFn, Body: []*Ins{{Tok: tRecoverDwn}}} },
 		func() *Ins { return &Ins{Tok: tReturn} },
+	}
+	if n <= 3 {
+		// Stop and Fatal inside a function called back by native code (the
+		// enumeration one level deeper stays without them: 11^4 trees are too many)
+		mk = append(mk,
+			func() *Ins { return &Ins{Tok: tCallback, Body: []*Ins{{Tok: tBody, N: 7}, {Tok: tStop, N: 8}}} },
+			func() *Ins { return &Ins{Tok: tCallback, Body: []*Ins{{Tok: tFatal, N: 9}}} })
 	}
 	var rec func(cur []func() *Ins)
 	rec = func(cur []func() *Ins) {
@@ -144,7 +219,7 @@ func encTree(t []*Ins, withLines bool) []byte {
 			switch in.Tok {
 			case tBody, tStop, tFatal, tNatPanic, tPanic:
 				b = append(b, byte(in.N))
-			case tCall, tDeferFn:
+			case tCall, tDeferFn, tCallback:
 				rec(in.Body)
 			case tDeferNat:
 				b = append(b, byte(in.K), byte(in.N))
@@ -181,7 +256,7 @@ func decTree(b []byte) ([]*Ins, error) {
 				}
 				in.N = int(b[pos])
 				pos++
-			case tCall, tDeferFn:
+			case tCall, tDeferFn, tCallback:
 				body, err := rec()
 				if err != nil {
 					return nil, err
@@ -285,6 +360,10 @@ func (p *printer) body(t []*Ins, indent int) {
 			p.w(indent, kw+"func() {")
 			p.body(in.Body, indent+1)
 			p.w(indent, "}()")
+		case tCallback:
+			p.w(indent, p.pkg+"Call(func() {")
+			p.body(in.Body, indent+1)
+			p.w(indent, "})")
 		case tDeferNat:
 			p.w(indent, "defer "+natCall(p.pkg, in.K, in.N))
 		case tPanic:
@@ -376,7 +455,38 @@ func (r *runRec) decls() native.Declarations {
 		"Stop":  func(env native.Env, e int) { r.tr = append(r.tr, 3, byte(e)); env.Stop(stopErrs[e&255]) },
 		"Fatal": func(env native.Env, v int) { r.tr = append(r.tr, 4, byte(v)); env.Fatal(fmt.Sprintf("f%d", v)) },
 		"P":     func(v int) { panic(fmt.Sprintf("p%d", v)) },
+		"Call":  func(f func()) { f() },
 	}
+}
+
+// callbackChain parses the text Run panics with when a panic leaves a
+// function called back by native code (callable.Value: the chain, oldest
+// first, one per line: `msg[ [recovered]]`, the later ones after "\tpanic: ").
+// It returns the records newest first.
+func callbackChain(s string) (recs [][2]byte, ok bool) {
+	if !strings.HasSuffix(s, "\n") {
+		return nil, false
+	}
+	lines := strings.Split(strings.TrimSuffix(s, "\n"), "\n")
+	for i, l := range lines {
+		if i > 0 {
+			if !strings.HasPrefix(l, "\tpanic: ") {
+				return nil, false
+			}
+			l = l[len("\tpanic: "):]
+		}
+		rc := byte(0)
+		if strings.HasSuffix(l, " [recovered]") {
+			rc = 1
+			l = strings.TrimSuffix(l, " [recovered]")
+		}
+		m := msgNum(l)
+		if m == 255 {
+			return nil, false
+		}
+		recs = append([][2]byte{{m, rc}}, recs...)
+	}
+	return recs, len(recs) > 0 && len(recs) < 250
 }
 
 // msgNum maps the values "p<n>" / "f<n>" back to n (255: anything else).
@@ -415,6 +525,15 @@ func encodeOutcome(tr []byte, err error, hostPanic any) (enc, noLines []byte, pa
 	case hostPanic != nil:
 		if s, ok := hostPanic.(string); ok && msgNum(s) != 255 {
 			add(13, msgNum(s))
+		} else if recs, ok := callbackChain(fmt.Sprint(hostPanic)); ok {
+			if _, isStr := hostPanic.(string); !isStr {
+				add(14)
+				break
+			}
+			add(16, byte(len(recs)))
+			for _, r := range recs {
+				add(r[0], r[1])
+			}
 		} else {
 			add(14)
 		}
